@@ -115,4 +115,23 @@ theorem commitment_view_simulatable (B : G) (μ m m' n b r c : F) :
 
 example : diff ([5, 7] : List ℚ) [1, 2] = [4, 5] := by norm_num [diff]
 
+/-- **Recorded finding (encrypt-and-decrypt statement).** The symmetric key that protects the claim text is
+derived from `b • K`. With the ElGamal component `c2 = m • M + b • K` public, a candidate `m` gives the
+key material back: the authenticated ciphertext then confirms or refutes the guess (replayed on the real
+code by the `ved-aes-key-from-candidate` distinguisher). -/
+theorem ved_key_material_from_candidate (m b : F) (M K : G) : (m • M + b • K) - m • M = b • K := by
+  module
+
+/-- … and a wrong candidate gives other key material (for `M ≠ 0`) -/
+theorem ved_wrong_candidate_other_material (m m' b : F) (M K : G) (hM : M ≠ 0) (hne : m ≠ m') :
+    (m • M + b • K) - m' • M ≠ b • K := by
+  intro h
+  have : (m - m') • M = 0 := by
+    have e : (m • M + b • K) - m' • M = b • K + (m - m') • M := by module
+    rw [e] at h
+    simpa using h
+  rcases smul_eq_zero.mp this with h1 | h1
+  · exact hne (sub_eq_zero.mp h1)
+  · exact hM h1
+
 end AC.C07
